@@ -121,7 +121,7 @@ func run(c *lib.Ctx) error {
 		return sErr
 	}
 	c.Assume("TLC is trusted; the child-process harness (watchdog, goroutine-dump classification, crash attribution by re-running the call alone) is trusted")
-	c.Assume("a timed-out evaluation counts as blocked only if every goroutine created since the call started is in a blocked state in two dumps; CPU/memory explosions and long-running-but-live calls are outside C17 and kept out by the documented clamp list")
+	c.Assume("a timed-out evaluation counts as blocked only if every goroutine created since the call started is in a blocked state in two dumps; a call still running (not blocked) after deadline + interrupt + grace is re-run alone with a 120 s deadline and that outcome is judged; CPU/memory explosions and long-running-but-live calls are outside C17 and kept out by the documented clamp list")
 	c.Assume("GoFnCall: the kind of a converted value is compared, not the value; the index of WrongArgType is read from its message (the field is unexported)")
 	return nil
 }
@@ -176,7 +176,8 @@ func runSweep(c *lib.Ctx, dir string) error {
 		return err
 	}
 	c.AddEvals(len(calls))
-	c.Logf("sweep executed: %d children, %d died", sw.nChild.Load(), sw.nDied.Load())
+	c.Logf("sweep executed: %d children, %d died, %d call(s) re-run alone with a long deadline (%d returned then)", sw.nChild.Load(), sw.nDied.Load(), sw.nRetried.Load(), sw.nRescued.Load())
+	c.Set("sweep_rerun_with_long_deadline", map[string]int64{"calls": sw.nRetried.Load(), "returned_then": sw.nRescued.Load()})
 
 	// ---- judge: EvalOutcome accepts only Returned
 	js := make([]judged, len(calls))
@@ -318,7 +319,7 @@ func runSweep(c *lib.Ctx, dir string) error {
 		if len(live) > 5 {
 			live = live[:5]
 		}
-		return lib.Infra("%d call(s) were still running (not blocked) after deadline + interrupt + grace; they belong on the clamp list: %s", hist["live"], strings.Join(live, "; "))
+		return lib.Infra("%d call(s) were still running (not blocked) after deadline + interrupt + grace, also when re-run alone with a 120 s deadline; they belong on the clamp list: %s", hist["live"], strings.Join(live, "; "))
 	}
 	return nil
 }
